@@ -147,34 +147,37 @@ theorem stepPosting_simple (date : Date) (ts : TxnState String String) (idx : Na
   have hcur_val : Amount.getPart (((Balance.get ts.bal acct).addPosting (.single ⟨v, c⟩)).removeZero) c = x + v := by
     rw [Amount.getPart_removeZero _ (Amount.WF_addPosting _ _ hb.wf), Amount.getPart_addPosting, hb.val, getPart_single]
     simp
-  have hcheck : (match bexp.map (fun b => PostingAmt.single (κ := String) ⟨b, c⟩) with
-      | none => (none : Option (BkErr String))
-      | some expected =>
-        let diff := (((Balance.get ts.bal a).addPosting (.single ⟨v, c⟩)).removeZero).assertBalance expected
-        if diff.isAbsoluteZero then none
-        else some (.assertionFailure idx (((Balance.get ts.bal a).addPosting (.single ⟨v, c⟩)).removeZero) diff)) = none := by
+  have hproc : processPosting ts.bal date idx ⟨a, some (.plain (.single ⟨v, c⟩)), bexp.map (fun b => .single ⟨b, c⟩)⟩ =
+      .ok (some ⟨.single ⟨v, c⟩, none, .single ⟨v, c⟩⟩, none,
+           AMap.insert ts.bal a (((Balance.get ts.bal a).addPosting (.single ⟨v, c⟩)).removeZero)) := by
     rcases hassert with h | ⟨ha, h⟩
-    · subst h; rfl
+    · subst h
+      simp [processPosting, Balance.addPostingAmount, RAmount.postingAmt, RAmount.convertedAmount,
+        RAmount.balanceAmount, RAmount.priceEvent]
     · subst ha
       subst h
-      simp only [Option.map_some, Amount.assertBalance, hcur_val, stepX, if_true]
-      have : x + v - (x + v) = 0 := by grind
-      simp [this, Amount.isAbsoluteZero]
-  refine ⟨{ ts with
-      postings := ts.postings ++ [⟨a, PostingAmt.toAmount (.single ⟨v, c⟩), none⟩]
-      balance := ts.balance.addPosting (.single ⟨v, c⟩)
-      bal := AMap.insert ts.bal a (((Balance.get ts.bal a).addPosting (.single ⟨v, c⟩)).removeZero)
-      events := ts.events ++ [] }, ?_, ?_, ?_⟩
-  · unfold stepPosting processPosting
-    simp only [Balance.addPostingAmount, RAmount.postingAmt]
-    rw [hcheck]
-    simp [RAmount.convertedAmount, RAmount.balanceAmount, RAmount.priceEvent]
-  · refine ⟨hts.unfilled, Amount.WF_addPosting _ _ hts.wf, ?_, ?_⟩
-    · simp only [Amount.getPart_addPosting, hts.val, getPart_single, if_true]
+      have h0 : x + v - (x + v) = 0 := by grind
+      simp only [processPosting, Balance.addPostingAmount, RAmount.postingAmt, Option.map_some,
+        Amount.assertBalance, hcur_val, stepX, if_true, h0]
+      simp [Amount.isAbsoluteZero, RAmount.convertedAmount, RAmount.balanceAmount, RAmount.priceEvent]
+  have hstep : ∃ ts', stepPosting date ts idx ⟨a, some (.plain (.single ⟨v, c⟩)), bexp.map (fun b => .single ⟨b, c⟩)⟩ = .ok ts' ∧
+      ts'.unfilled = ts.unfilled ∧ ts'.balance = ts.balance.addPosting (.single ⟨v, c⟩) ∧
+      ts'.bal = AMap.insert ts.bal a (((Balance.get ts.bal a).addPosting (.single ⟨v, c⟩)).removeZero) := by
+    unfold stepPosting
+    rw [hproc]
+    exact ⟨_, rfl, rfl, rfl, rfl⟩
+  obtain ⟨ts', hs, hunf, hbalance, hbal⟩ := hstep
+  refine ⟨ts', hs, ?_, ?_⟩
+  · rw [show ts' = { ts' with unfilled := ts'.unfilled } from rfl]
+    refine ⟨hunf ▸ hts.unfilled, hbalance ▸ Amount.WF_addPosting _ _ hts.wf, ?_, ?_⟩
+    · rw [hbalance]
+      simp only [Amount.getPart_addPosting, hts.val, getPart_single, if_true]
     · intro c' hc'
+      rw [hbalance]
       simp only [Amount.getPart_addPosting, hts.others c' hc', getPart_single, Ne.symm hc', if_false]
       simp
-  · unfold stepX
+  · rw [hbal]
+    unfold stepX
     by_cases ha : a = acct
     · subst ha
       simp only [if_true]
